@@ -435,3 +435,18 @@ def run(ctx):
                       "%s (declared payload %d bytes) is now accepted with a payload of %s bytes; the model refused "
                       "those sizes (accepted: %s)" % (e.mcv, e.parsed["payload_size"], extra, tab[e.mcv]))
     ctx.need(nsz >= 10, "R12.6: only %d size-checked events evaluated" % nsz)
+
+
+_run_base = run
+
+
+def run(ctx):
+    _run_base(ctx)
+    prog = ctx.prog
+    ctx.rule("R12.8", "no event is dropped on the way to the models: only the stream reader (stream.c) moves a "
+             "stream's cursor or ends it, so a stream the system does not know is still delivered and refused; a "
+             "model that refuses a required version makes the emulator fail (the failure of model_version_probe is "
+             "followed to main's exit status)")
+    from rules import round3
+    round3.check_stream_cursor_owner(ctx, "R12.8")
+    round3.check_probe_failure_propagates(ctx, "R12.8")
